@@ -94,6 +94,20 @@ func selftestHooks(r *Run, report func(name string, ok bool, detail string)) {
 	runRadixPool(r, "selftest-bad", small, 4, rand.New(rand.NewSource(1)))
 	radixTamper = nil
 	report("a falsified result class in an MC_Radix transition is reported", len(r.captured) > before, "")
+	// copy-on-write heap: the wrong variants of the mechanism are refuted; a replay with a falsified result is reported
+	func() {
+		defer func() {
+			if p := recover(); p != nil {
+				report("MC_Cow: every wrong variant of the copy-on-write mechanism is refuted", false, fmt.Sprint(p))
+			}
+		}()
+		cowNegativeRuns(r)
+		report("MC_Cow: every wrong variant of the copy-on-write mechanism is refuted", r.getCov("cow_wrong_variants_refuted") == int64(len(cowVariants)), "")
+	}()
+	before = len(r.captured)
+	runCowPool(r, "selftest", &cowGen{Pool: []string{"/a", "/a/b"}, MaxRoutes: 2, MaxSnaps: 1, MaxHist: 60, Variant: "none"}, rand.New(rand.NewSource(1)))
+	report("MC_Cow transitions replay on the real heap without difference", len(r.captured) == before && r.getCov("cow_value_differences") == 0 && r.getCov("cow_sharing_differences") == 0,
+		fmt.Sprintf("%d transitions", r.getCov("cow_edges_replayed")))
 	_ = fox.VerifLoad
 	_ = os.Getenv
 	_ = filepath.Join
